@@ -599,6 +599,61 @@ def rule_fft_buffers(rep):
     rep.ob(R, "FftFixedIn/staging-capacity", ok, detail + " (the append loop is a zip: frames that do not fit are silently dropped)", loc(cfn))
 
 
+def rule_fft_work_buffers(rep):
+    """realfft's process_with_scratch returns Err (and the crate unwraps it) unless the buffers have exactly the planned lengths: a real transform
+    of length L reads / writes L real samples and L/2 + 1 complex bins.  The work buffers are allocated once in FftResampler::new."""
+    facts = rep.ctx.facts
+    R = "R-C03-fft-capacity"
+    cfn = facts.need_method("FftResampler", "new")
+    ir.let_env(cfn)      # fails closed when a parameter is re-assigned
+    # lengths are fixed at allocation unless a resizing method is called on the local (handing out `&mut buf` does not change a length)
+    resized = {x["recv"]["p"] for x in walk(cfn["body"]) if x.get("k") == "mcall" and x["name"] in ir.RESIZING_METHODS and is_path(x["recv"])}
+    env = {s_["pat"]["name"]: s_["init"] for s_ in cfn["body"]["stmts"] if s_.get("k") == "let" and s_["pat"].get("k") == "pident" and s_.get("init") is not None
+           and s_["pat"]["name"] not in resized}
+    alg = Alg(TypeEnv(locals_={p["name"]: "int" for p in cfn["params"]}))
+    plans = {}
+    for n_, v_ in env.items():
+        if v_.get("k") == "mcall" and v_["name"] in ("plan_fft_forward", "plan_fft_inverse") and len(v_["args"]) == 1:
+            plans[v_["name"]] = (n_, alg.conv(v_["args"][0]))
+
+    def veclen(name):
+        v_ = env.get(name)
+        if v_ is not None and v_.get("k") == "macro" and v_["name"] == "vec" and v_.get("repeat"):
+            return alg.conv(v_["repeat"][1])
+        return None
+    # which local is used how: the filter transform in the constructor, the struct literal's fields for the per-call transforms
+    lit = None
+    tail = cfn["body"]["stmts"][-1] if cfn["body"]["stmts"] else None
+    if tail is not None and tail.get("k") == "expr" and tail["e"].get("k") == "struct":
+        lit = {f[0]: f[1] for f in tail["e"]["fields"]}
+    ok = "plan_fft_forward" in plans and "plan_fft_inverse" in plans and lit is not None
+    detail = "plans %s" % {k_: str(v_[1]) for k_, v_ in plans.items()}
+    if ok:
+        Lf, Li = plans["plan_fft_forward"][1], plans["plan_fft_inverse"][1]
+        want = {"input_buf": Lf, "input_f": Lf / 2 + 1, "output_f": Li / 2 + 1, "output_buf": Li}
+        got = {}
+        for fld, w in want.items():
+            e_ = lit.get(fld)
+            ln_ = veclen(e_["p"]) if e_ is not None and is_path(e_) else None
+            got[fld] = ln_
+            if ln_ is None or sp.simplify(ln_ - w) != 0:
+                ok = False
+        # the filter itself is transformed once in the constructor: <forward plan>.process(&mut A, &mut B)
+        fcalls = [x for x in walk(cfn["body"]) if x.get("k") == "mcall" and x["name"] in ("process", "process_with_scratch") and is_path(x["recv"], plans["plan_fft_forward"][0])]
+        if len(fcalls) != 1 or len(fcalls[0]["args"]) < 2:
+            ok = False
+        else:
+            a_, b_ = [y["e"] if y.get("k") == "ref" else y for y in fcalls[0]["args"][:2]]
+            la, lb = (veclen(a_["p"]) if is_path(a_) else None), (veclen(b_["p"]) if is_path(b_) else None)
+            got["filter transform"] = (la, lb)
+            if la is None or lb is None or sp.simplify(la - Lf) != 0 or sp.simplify(lb - (Lf / 2 + 1)) != 0:
+                ok = False
+            if lit.get("filter_f") is None or not is_path(lit["filter_f"], b_.get("p")):
+                ok = False
+        detail = "forward plan %s, inverse plan %s, buffer lengths %s" % (Lf, Li, {k_: str(v_) for k_, v_ in got.items()})
+    rep.ob(R, "FftResampler/work-buffer-lengths", ok, detail + " (required: real buffers of the planned length L, spectra of L/2 + 1 bins; any other length makes realfft return Err, which is unwrapped)", loc(cfn))
+
+
 def rule_fft_capacity(rep):
     """FftFixedOut writes whole FFT blocks into output_buffers[chan][saved..]; the buffer holds chunk_size_out + fft_size_out frames.
     That suffices only if the number of blocks requested is ceil((chunk_size_out − saved)/fft_size_out) (and none once saved ≥ chunk_size_out)."""
@@ -712,6 +767,7 @@ def run(rep):
     rep.guarded("R-C03-panic-sites", rule_panics)
     rep.guarded("R-C03-fft-capacity", rule_fft_capacity)
     rep.guarded("R-C03-fft-capacity", rule_fft_buffers)
+    rep.guarded("R-C03-fft-capacity", rule_fft_work_buffers)
     # the (index, sub-index) pairs handed to the kernels come from get_nearest_time{,s_2,_3,_4}: their wrap (sub-index < factor, carry into the index)
     # is what keeps the kernels' `subindex < nbr_sincs` assertion from firing - shared with C01
     import C01
